@@ -15,3 +15,5 @@ OBLIGATIONS = K.WRITER_LAYOUT + [K.WIG_SECTION_W, K.BED_SECTION_W, K.ZOOM_SECTIO
 OBLIGATIONS = OBLIGATIONS + [K.TREE_OFFSETS]
 OBLIGATIONS = OBLIGATIONS + [K.EVERY_VALUE]
 OBLIGATIONS = OBLIGATIONS + [K.MAGICS]
+# one run per chromosome (D22): a re-appearing chromosome must be refused, else sections are out of chromosome order
+OBLIGATIONS = OBLIGATIONS + [K.IDMAP]
